@@ -5,6 +5,7 @@ import (
 	"sync"
 
 	"github.com/ajitpratap0/GoSQLX/pkg/metrics"
+	"github.com/ajitpratap0/GoSQLX/pkg/sql/keywords"
 )
 
 // bufferPool is used to reuse bytes.Buffer instances during tokenization.
@@ -111,6 +112,12 @@ func GetTokenizer() *Tokenizer {
 func PutTokenizer(t *Tokenizer) {
 	if t != nil {
 		t.Reset()
+		// the next holder gets the default dialect, not the one a previous
+		// holder selected with SetDialect
+		if t.dialect != keywords.DialectPostgreSQL {
+			t.dialect = keywords.DialectPostgreSQL
+			t.keywords = keywords.NewKeywords()
+		}
 		tokenizerPool.Put(t)
 
 		// Record pool return
